@@ -257,6 +257,27 @@ class SiteWorld:
                           metadata={'temperature': temperature})
 
 
+def grid_world(rng, n=11, spacing=3, sub=4, radius=1.0, inner_fraction=0.5, orientation='chol'):
+    """A SiteWorld with n^3 sites on a regular grid in a cubic cell (n * spacing Angstrom): site indices far beyond the handful of
+    the other generators (n = 11: 1331 sites), for whatever the code keys, packs or counts by site index."""
+    from pymatgen.core import Lattice, Structure
+    w = SiteWorld.__new__(SiteWorld)
+    L = spacing * n
+    w.rng, w.family, w.N = rng, f'cubic{L}', sub * n
+    w.G = [[L * L, 0, 0], [0, L * L, 0], [0, 0, L * L]]
+    w.R = 1
+    w.M = lattice_matrix(w.G, orientation, rng)
+    w.lattice = Lattice(w.M)
+    w.radius, w.inner_fraction = radius, inner_fraction
+    w.sites_k = [[sub * i, sub * j, sub * k] for i in range(n) for j in range(n) for k in range(n)]
+    w.far_k = [[sub * i + sub // 2, sub * j + sub // 2, sub * k + sub // 2] for i, j, k in rng.integers(0, n, size=(8, 3))]
+    w.labels = [f'L{i % 2}' for i in range(n ** 3)]
+    w.species = 'Li'
+    w.structure = Structure(lattice=w.lattice, species=['Li'] * n ** 3, coords=np.array(w.sites_k) / w.N, labels=w.labels)
+    w.Minv = np.linalg.inv(w.M)
+    return w
+
+
 def perturb(traj, rng, p=0.6):
     """Read-only queries that switch the internal representation of a Trajectory (positions <-> displacements) or derive
     objects from it.  By C15 none of them may change what any later analysis returns, so drivers sprinkle them between the
